@@ -19,6 +19,26 @@ def types_of(g):
     return out
 
 
+def _unsigned_promotion(recipe, graph):
+    """F15: a shape handed over as an *unsigned* ndarray reaches `np.prod` in `calc_flatten_output` (result uint64), the next
+    node assembles `np.array([<uint64 entry>, *<int64 entries>])`, which numpy promotes to float64, and a later conv branch
+    rejects the float extent with TypeError.  Recognised by exactly that chain: an unsigned shape array in the recipe, a
+    Flatten whose declared output is uint64, and a declared type of dtype float64 somewhere after the failed inference."""
+    def unsigned_in(v):
+        return isinstance(v, dict) and (("a" in v and "u" in str(v.get("a"))) or any(unsigned_in(x) for x in (v.get("d") or []) if isinstance(x, dict))
+                                        or any(unsigned_in(x[1]) for x in (v.get("d") or []) if isinstance(x, list) and len(x) == 2))
+    has_unsigned = any(k in ("input_type", "output_type") and unsigned_in(v) for _, r in recipe["nodes"] for k, v in r["kwargs"])
+    if not has_unsigned or graph is None:
+        return None
+    import nir
+    flat_u64 = any(isinstance(n, nir.Flatten) and n.output_type and getattr(n.output_type.get("output"), "dtype", None) == np.dtype("uint64")
+                   for n in graph.nodes.values())
+    float_type = any(getattr((t or {}).get(key), "dtype", None) == np.dtype("float64")
+                     for n in graph.nodes.values() if not isinstance(n, nir.NIRGraph)
+                     for t, key in ((n.input_type, "input"), (n.output_type, "output")))
+    return "unsigned-shape-through-flatten-promoted-to-float64" if (flat_u64 and float_type) else None
+
+
 def _run_main(ctx):
     rng = ctx.rng
     cases, obs, reqs = [], [], []
@@ -37,8 +57,11 @@ def _run_main(ctx):
         else:
             sig_kinds = sorted(set(dict(g["nodes"])[n]["type"] for n in erased))
             if steps[1]["err"] is not None:
-                ctx.violate(case, "infer_types raised on a consistent graph", {"site": "infer_types", "what": "raised"},
-                            observed=steps[1]["err"])
+                sig = {"site": "infer_types", "what": "raised"}
+                cause = _unsigned_promotion(g, graph)
+                if cause:
+                    sig["cause"] = cause        # defect F15 (known_findings.json): identified by exactly this chain of facts
+                ctx.violate(case, "infer_types raised on a consistent graph", sig, observed=steps[1]["err"])
             else:
                 got = types_of(graph)
                 bad = {}
